@@ -664,6 +664,116 @@ func c08Run(c *Ctx, k thriftCase) {
 				fail("Decoder.Decode(strict, wrong wire type)", "TypeMismatch", fmt.Sprintf("err=%v %s", derr, pan))
 			}
 		}
+		// the same inside nested values: every struct nested in field i (directly, behind a pointer, as list /
+		// set element, as map key or value) is written with its field 1 as i16 instead of i64
+		for i := range k.Layout {
+			src := l.structValue(k.Layout, k.Vals)
+			wt, changed := altType(src.Type())
+			if !changed {
+				break
+			}
+			n := 0
+			dst := reflect.New(wt).Elem()
+			for j := 0; j < src.NumField(); j++ {
+				if j == i {
+					convertAlt(dst.Field(j), src.Field(j), &n)
+				} else if ft, ch := altType(src.Field(j).Type()); !ch {
+					dst.Field(j).Set(src.Field(j))
+					_ = ft
+				}
+			}
+			if n == 0 {
+				continue // no struct was written inside field i
+			}
+			b, err := thrift.Marshal(p, dst.Interface())
+			if err != nil {
+				continue
+			}
+			c.Eval(1)
+			_, derr, pan := decode(b, true)
+			var tm *thrift.TypeMismatch
+			if pan != "" || !errors.As(derr, &tm) {
+				fail("Decoder.Decode(strict, wrong wire type inside a nested struct)", "TypeMismatch", fmt.Sprintf("err=%v %s field=%d bytes=%x", derr, pan, k.Layout[i].ID, b))
+			}
+		}
+	}
+}
+
+var sub1AltLayout = []tField{{ID: 1, Ty: "I16"}, {ID: 2, Ty: "BOOL"}}
+
+// altType: t with every occurrence of the nested struct type replaced by a struct whose field 1 is an i16
+func altType(t reflect.Type) (reflect.Type, bool) {
+	sub := tStructType(sub1Layout)
+	switch {
+	case t == sub:
+		return tStructType(sub1AltLayout), true
+	case t.Kind() == reflect.Pointer:
+		e, ch := altType(t.Elem())
+		return reflect.PointerTo(e), ch
+	case t.Kind() == reflect.Slice:
+		e, ch := altType(t.Elem())
+		return reflect.SliceOf(e), ch
+	case t.Kind() == reflect.Map:
+		k, ch1 := altType(t.Key())
+		e, ch2 := altType(t.Elem())
+		return reflect.MapOf(k, e), ch1 || ch2
+	case t.Kind() == reflect.Struct && t.NumField() > 0 && t != reflect.TypeOf(struct{}{}):
+		fields := make([]reflect.StructField, t.NumField())
+		changed := false
+		for i := range fields {
+			f := t.Field(i)
+			ft, ch := altType(f.Type)
+			changed = changed || ch
+			fields[i] = reflect.StructField{Name: f.Name, Type: ft, Tag: f.Tag}
+		}
+		if changed {
+			return reflect.StructOf(fields), true
+		}
+	}
+	return t, false
+}
+
+// convertAlt copies src into dst (of the altType); nested structs get field 1 = 1 (as i16); n counts them
+func convertAlt(dst, src reflect.Value, n *int) {
+	if dst.Type() == src.Type() {
+		dst.Set(src)
+		return
+	}
+	switch src.Kind() {
+	case reflect.Pointer:
+		if !src.IsNil() {
+			dst.Set(reflect.New(dst.Type().Elem()))
+			convertAlt(dst.Elem(), src.Elem(), n)
+		}
+	case reflect.Slice:
+		if !src.IsNil() {
+			dst.Set(reflect.MakeSlice(dst.Type(), src.Len(), src.Len()))
+			for i := 0; i < src.Len(); i++ {
+				convertAlt(dst.Index(i), src.Index(i), n)
+			}
+		}
+	case reflect.Map:
+		if !src.IsNil() {
+			dst.Set(reflect.MakeMap(dst.Type()))
+			it := src.MapRange()
+			for it.Next() {
+				kv := reflect.New(dst.Type().Key()).Elem()
+				ev := reflect.New(dst.Type().Elem()).Elem()
+				convertAlt(kv, it.Key(), n)
+				convertAlt(ev, it.Value(), n)
+				dst.SetMapIndex(kv, ev)
+			}
+		}
+	case reflect.Struct:
+		if src.Type() == tStructType(sub1Layout) {
+			dst.Field(0).SetInt(1)
+			dst.Field(1).Set(src.Field(1))
+			*n++
+			return
+		}
+		for i := 0; i < src.NumField(); i++ {
+			convertAlt(dst.Field(i), src.Field(i), n)
+		}
 	}
 }
 
